@@ -275,19 +275,23 @@ class Instrument:
                         w.in_helper -= 1
             return g
 
+        def fname(file):
+            """the path a helper works on, also when it is handed an already opened file object instead of a path"""
+            return str(file) if isinstance(file, (str, os.PathLike)) else str(getattr(file, "name", file))
+
         def w_write(file, content):
-            if not os.path.exists(str(file)):
-                s.point("create", str(file))
-                builtins.open(str(file), "a").close()
-            s.point("write", str(file))
+            if not os.path.exists(fname(file)):
+                s.point("create", fname(file))
+                builtins.open(fname(file), "a").close()
+            s.point("write", fname(file))
             return helper(o_write)(file, content)
 
         def w_load(file, *a, **k):
-            s.point("load", str(file))
+            s.point("load", fname(file))
             return helper(o_load)(file, *a, **k)
 
         def w_row(file, *a, **k):
-            s.point("readrow", str(file))
+            s.point("readrow", fname(file))
             return helper(o_row)(file, *a, **k)
 
         def w_open(file, mode="r", *a, **k):
